@@ -22,7 +22,16 @@ TECHNIQUE = 'Lean 4 proof: reflective decide over regenerated decoder IR + footp
 
 CROSS = {('BSC_setsockopt', 2): {1}, ('BSC_getsockopt', 2): {1}, ('BSC_shm_open', 2): {1}, ('BSC_sem_open', 2): {1}}
 NARROW = {('MSC_semaphore_timedwait_trap', 1)}       # Props/C09.narrowed: the trap's nanoseconds are an unsigned int
-BIG = [0x180000000, 0xffffffff00000000, 1 << 63, 0x7fffffff00000000, 0x100002000]
+BIG = [0x180000000, 0xffffffff00000000, 1 << 63, 0x7fffffff00000000, 0x100002000,
+       0xffffffff80000000, 0xffffffffffff0000, 0xfffffffe00000000 + 0x80000000]   # sign-extended ints, and nearly so
+_NUM = re.compile(r'(-?0x[0-9a-f]+|-?\d+)(?: /\*.*\*/)?')
+
+
+def lead_number(p):
+    """The number a parameter text shows: the whole text, or the number in front of an explanatory comment
+    (`0x8004667e /* _IOC(...) */`)."""
+    m = _NUM.fullmatch(p)
+    return m.group(1) if m else None
 CAND = [7, 1, 2, 3, 4, 0, 5, 6, 8, 9, 10, 11, 12, 16, 17, 0x40, 0x100]
 BASE = [0x1a2b, 0x3c4d, 0x5e6f, 0x7081]
 
@@ -107,8 +116,8 @@ def position_oracle(name):
             break
     # a plain number shown at position k must be a rendering of word k
     for k, p in enumerate(sp0[1]):
-        if k < 4 and (re.fullmatch(r'-?\d+', p) or re.fullmatch(r'-?0x[0-9a-f]+', p)):
-            v = int(p, 0)
+        if k < 4 and lead_number(p) is not None:
+            v = int(lead_number(p), 0)
             if v not in allowed_values(base[k]):
                 return ('decoder:%s:position-%d-not-word-%d' % (name, k, k),
                         'parameter %d shows %s, START words are %s' % (k, p, base), {'start': base, 'text': t0})
@@ -123,9 +132,9 @@ def position_oracle(name):
                 if sp2 is None or len(sp2[1]) <= k:
                     continue
                 p2 = sp2[1][k]
-                if not (re.fullmatch(r'-?\d+', p2) or re.fullmatch(r'-?0x[0-9a-f]+', p2)):
+                if lead_number(p2) is None:
                     continue
-                if int(p2, 0) not in (s2[k], s2[k] - (1 << 64)):
+                if int(lead_number(p2), 0) not in (s2[k], s2[k] - (1 << 64)):
                     return ('decoder:%s:position-%d-narrowed' % (name, k),
                             'parameter %d shows %s for START word %d (%#x): not the argument in decimal, signed or '
                             'hexadecimal form' % (k, p2, s2[k], s2[k]), {'start': s2, 'text': t2})
